@@ -264,7 +264,9 @@ def run_check(prop, tier, seed, jobs=None):
         harness_errors.append(("validation", str(e)))
 
     # ---- replay counterexamples
-    rep_dir = os.path.join(VERIF, "evidence", "replays", prop)
+    scratch = os.path.realpath(os.environ.get("VERIF_REPO", "/repo")) != os.path.realpath("/repo")
+    ev_dir = os.path.join(VERIF, "evidence", "_scratch") if scratch else os.path.join(VERIF, "evidence")   # runs against a scratch copy never overwrite the evidence of /repo
+    rep_dir = os.path.join(ev_dir, "replays", prop)
     violations, known_hits, mismatches = [], collections.Counter(), 0
     suppressed = 0
     soft_unconfirmed = 0
@@ -398,11 +400,11 @@ def run_check(prop, tier, seed, jobs=None):
         "wall_s": round(wall, 2),
         "violations": len(violations),
     }
-    os.makedirs(os.path.join(VERIF, "evidence"), exist_ok=True)
-    json.dump(ev, open(os.path.join(VERIF, "evidence", "%s.json" % prop), "w"), indent=1, default=str)
+    os.makedirs(ev_dir, exist_ok=True)
+    json.dump(ev, open(os.path.join(ev_dir, "%s.json" % prop), "w"), indent=1, default=str)
     slow = sorted(((r.get("wall_s", 0), r.get("name")) for r in results), reverse=True)[:3]
     ev["coverage"]["slowest_instantiations"] = [[n, w] for w, n in slow]
-    json.dump(ev, open(os.path.join(VERIF, "evidence", "%s.json" % prop), "w"), indent=1, default=str)
+    json.dump(ev, open(os.path.join(ev_dir, "%s.json" % prop), "w"), indent=1, default=str)
     for l in lines:
         print(l)
     print("slowest: %s" % slow)
